@@ -321,6 +321,9 @@ func extFprintln(m *Machine, caller *frame, args []Value) Value {
 }
 
 func extLogFatal(m *Machine, caller *frame, args []Value) Value {
+	if m.path.cli != nil && m.path.cli.ran {
+		m.report("assert", "C18.no-execution-before-error-exit", "log.Fatal after the program was executed", m.ts.True)
+	}
 	m.path.events = append(m.path.events, "EXIT 1")
 	m.endPath(OutExit, "log.Fatal")
 	return nil
